@@ -109,16 +109,18 @@ fn neg_leaky_site(l: &loc::Loc) -> bool {
     l.value_unused || l.in_tuple || matches!(l.placement, "element" | "returnvalue")
 }
 
-fn add_helpers(prog: &mut Program, p: &cat::Plant) {
-    if p.needs_blob && !prog.blobs.iter().any(|b| b.name == "Zqb") {
+/// top-level declarations the planted text refers to (part of the plant): the blob `Zqb` and the annotated
+/// helper functions `zqg<r> :: pu zqa: int, zqb: str -> <r>`
+fn add_helpers(prog: &mut Program, text: &str) {
+    if text.contains("Zqb") && !prog.blobs.iter().any(|b| b.name == "Zqb") {
         prog.blobs.push(BlobDecl {
             name: "Zqb".into(),
             fields: vec![FieldDecl { name: "zf".into(), ty: Ty::Int }, FieldDecl { name: "zg".into(), ty: Ty::Str }],
         });
     }
-    if let Some(r) = p.needs_gfn {
+    for r in cat::PRIMS {
         let name = cat::gfn_name(r);
-        if !prog.vars.iter().any(|v| v.name == name) {
+        if text.contains(name) && !prog.vars.iter().any(|v| v.name == name) {
             let fty = Ty::Fn(vec![Ty::Int, Ty::Str], Box::new(r.ty()), true);
             let f = prog.new_var(name.to_string(), fty.clone(), VarKind::Global, false);
             let a = prog.new_var("zqa".into(), Ty::Int, VarKind::Param, false);
@@ -133,6 +135,41 @@ fn add_helpers(prog: &mut Program, p: &cat::Plant) {
             prog.globals.insert(0, Global { var: f, mutable: false, value: e(fty, EKind::Lambda(Box::new(def))) });
         }
     }
+}
+
+/// the smallest program that keeps the plant's kind and value use: the plant alone in `start` (first shrink step)
+fn minimal_program(case: &Case) -> Option<Program> {
+    let l = loc::find(&case.prog.prog, &case.bad, case.is_expr)?;
+    let mut p = Program::default();
+    let sty = Ty::Fn(vec![], Box::new(Ty::Void), false);
+    let mut body = Block::default();
+    if !case.is_expr {
+        if case.kind == "ret-enclosing" {
+            return None;
+        }
+        body.stmts.push(Stmt::Raw(case.bad.clone()));
+    } else if case.embed == "replaced" {
+        let raw = e(Ty::Int, EKind::Raw(case.bad.clone()));
+        if l.value_unused {
+            body.stmts.push(Stmt::Expr(raw));
+        } else if l.in_tuple {
+            body.stmts.push(Stmt::Expr(e(Ty::Tuple(vec![Ty::Int, Ty::Int]), EKind::Tuple(vec![raw, int(0)]))));
+        } else {
+            return None;
+        }
+    } else {
+        let v = p.new_var("zqv".into(), Ty::Int, VarKind::Global, false);
+        p.globals.push(Global { var: v, mutable: false, value: e(Ty::Int, EKind::Raw(case.bad.clone())) });
+    }
+    let start = p.new_var("start".into(), sty.clone(), VarKind::Global, false);
+    let def = FnDef { params: vec![], ret: Ty::Void, body, pure: false };
+    p.globals.push(Global { var: start, mutable: false, value: e(sty, EKind::Lambda(Box::new(def))) });
+    add_helpers(&mut p, &case.bad);
+    add_helpers(&mut p, &case.good);
+    if p == case.prog.prog {
+        return None;
+    }
+    Some(p)
 }
 
 fn stmt_class(p: &Program, s: &plant::StmtSite) -> String {
@@ -364,7 +401,8 @@ impl C03 {
             built = Some(Built { c, mode: "stmt-site", is_expr: false, base: None, site_placement: pl });
         }
         let Built { c, mode: mode_name, is_expr, base: base_text, site_placement } = built?;
-        add_helpers(&mut prog, &c.plant);
+        add_helpers(&mut prog, &c.bad);
+        add_helpers(&mut prog, &c.good);
         let plan = SurfacePlan::default();
         let source = render(&prog, &plan).text;
         Some(Case {
@@ -587,7 +625,16 @@ impl Check for C03 {
     }
 
     fn simplify_at(&self, case: &Case, idx: usize) -> Step<Case> {
-        match shrink_step(&case.prog, idx) {
+        if idx == 0 {
+            return match minimal_program(case) {
+                Some(p) => {
+                    let source = render(&p, &case.prog.plan).text;
+                    Step::Candidate(Case { prog: ProgCase { prog: p, plan: case.prog.plan.clone(), source }, ..case.clone() })
+                }
+                None => Step::Skip,
+            };
+        }
+        match shrink_step(&case.prog, idx - 1) {
             Step::End => Step::End,
             Step::Skip => Step::Skip,
             Step::Candidate(p) => Step::Candidate(Case { prog: p, ..case.clone() }),
@@ -646,6 +693,10 @@ impl Check for C03 {
             return Err("c03_loc and syltmodel::plant disagree about a placement".into());
         }
         for k in cat::ALL_KINDS {
+            // (`ret-in-if` is only planted while the avoidance switch is off; C03_AVOID=1 forces it on)
+            if *k == "ret-in-if" && s.label("avoidance-off") == 0 {
+                continue;
+            }
             if s.label(&format!("kind:{}", k)) == 0 {
                 return Err(format!("mismatch kind {} was never planted", k));
             }
